@@ -29,21 +29,17 @@ def close_ulps(got: np.ndarray, ref: np.ndarray, ulps: float = 8.0,
     with np.errstate(all="ignore"):
         g = got.astype(np.complex128 if dt.kind == "c" else np.float64)
         r = ref.astype(np.complex128 if dt.kind == "c" else np.float64)
-        gn, rn = np.isnan(g), np.isnan(r)
-        if not np.array_equal(gn, rn):
-            return False
-        gi, ri = np.isinf(g), np.isinf(r)
-        if dt.kind == "c":
-            # infinities in either part: require identical values there
-            if not np.array_equal(gi, ri):
+        nf = ~np.isfinite(g) | ~np.isfinite(r)
+        if nf.any():
+            # non-finite entries must coincide exactly (NaNs with NaNs, infinities with
+            # sign), part by part for complex values
+            if dt.kind == "c":
+                if not (np.array_equal(g.real[nf], r.real[nf], equal_nan=True)
+                        and np.array_equal(g.imag[nf], r.imag[nf], equal_nan=True)):
+                    return False
+            elif not np.array_equal(g[nf], r[nf], equal_nan=True):
                 return False
-            fin = ~(gn | gi)
-            if not np.array_equal(g[gi & ~gn], r[ri & ~rn], equal_nan=True):
-                return False
-        else:
-            if not np.array_equal(gi, ri) or not np.array_equal(g[gi], r[ri]):
-                return False
-            fin = ~(gn | gi)
+        fin = ~nf
         d = np.abs(g - r)
         tol = ulps * eps * np.abs(r) + float(np.finfo(dt).tiny)
         if err is not None:
